@@ -800,7 +800,9 @@ def run(ctx):
     ctx.extra["tree_under_test"] = fw.REPO
     import ib_ingest
     import file_corr
-    ctx.prove(["TLX.Props.C12"] + ib_ingest.MODULES)
+    import export_inputs_thms          # whole-program forms (Props/ExportInputs) about exportFile / framesFrom
+    ctx.prove(["TLX.Props.C12"] + ib_ingest.MODULES + export_inputs_thms.MODULES)
+    ctx.require_theorems(export_inputs_thms.THEOREMS_C12)
     ctx.require_theorems(THEOREMS + ib_ingest.THEOREMS)
     run_correspondence(ctx)
     ib_ingest.correspond(ctx)         # ties TLX.Dissect / TLX.Ingest (what Packet() gets from dpkt; run()'s glue) to the real code
